@@ -1087,8 +1087,11 @@ fn exec_seq(out: &mut Out, ctx: &mut Ctx, line: &str) -> Option<(String, bool)> 
             let mut last = String::new();
             let mut nested_n = 0;
             let mut nested_first = Vec::new();
-            for _ in 0..n {
-                let r = apply_checked(out, &mut ctx.sys, &op, &trail, true);
+            for k in 0..n {
+                // full oracles on the first and last repetitions, around the usual thresholds, and every 32nd; the digest
+                // (compared with the model) covers every repetition
+                let full = k < 3 || k + 3 >= n || k % 32 == 0 || [7, 8, 9, 15, 16, 17, 63, 64, 65, 127, 128, 129, 254, 255, 256, 257].contains(&k);
+                let r = apply_checked(out, &mut ctx.sys, &op, &trail, full);
                 last = obs(&ctx.sys, &r);
                 h = fnv_line(h, &last);
                 for x in ctx.sys.nested.lock().unwrap().drain(..) {
@@ -2055,7 +2058,7 @@ fn main() {
         out.rule = "concurrent histories on one real Registry: 2..4 threads x 2..4 ops (register_value, register_function, set_root, merge_at, read, dispatch read/write/call) over 3 nested pointers + root, threads released together by a spin barrier, each scenario run many times and every distinct outcome checked; plus targeted two-thread race loops on the pairs that are order-sensitive between the two lock regions of the body-bearing dispatch. Distinct by scenario+outcome; non-trivial = the scenario showed more than one outcome".into();
         let mut ops = Vec::new();
         let mut k = 0u64;
-        let (nsc, iters, race) = if thorough { (1500, 200, 1_000_000) } else { (250, 40, 100_000) };
+        let (nsc, iters, race) = if thorough { (1200, 200, 500_000) } else { (250, 40, 100_000) };
         for sc in race_scenarios() {
             ops.push(format!("conc {} {} {}", k, race, sc.words()));
             k += 1;
@@ -2066,7 +2069,7 @@ fn main() {
             k += 1;
         }
         // observers beside a mutator: merges of several fields, root replacement, registrations, writes
-        for _ in 0..nsc / 2 {
+        for _ in 0..nsc / 3 {
             let wt = gen_watch(&mut rng);
             ops.push(format!("watch {} {} {}", k, iters, wt.words()));
             k += 1;
